@@ -51,23 +51,23 @@ def plan_C15(tier, seed):
                 "from a panic (std::thread::panicking() is true there), and - not under Miri - for the 300th time on the same "
                 "thread (combinators keep no state); six more cells per shape evaluate or_parse and and_then INSIDE a "
                 "continuation of and_then / and_also after a nested continuation failed and the enclosing code recovered; the whole table is instantiated for several shapes of the "
-                "value/error types - thirteen - (4-byte; odd-sized (u32,(u8,u16)); 136-byte and 328-byte arrays, i.e. Parsed larger than 128 "
-                "bytes; String and Box payloads with drop glue; u128 and #[repr(align(64))] payloads, i.e. over-aligned; five more where the types that map / "
+                "value/error types - fourteen - (4-byte; odd-sized (u32,(u8,u16)); 136-byte and 328-byte arrays, i.e. Parsed larger than 128 "
+                "bytes; String and Box payloads with drop glue; u128 and #[repr(align(64))] payloads, i.e. over-aligned; six more where the types that map / "
                 "and_then / err_into / map_err convert TO differ in size from the ones they convert FROM: widening 4->16, 16->32, "
-                "16->136 bytes, narrowing 136->4, plain -> String) - generic code can differ between instantiations only "
+                "16->136 bytes, narrowing 136->4, plain -> String, String -> plain, i.e. from drop glue to none) - generic code can differ between instantiations only "
                 "through such type intrinsics; payload integrity is part of the compared rendering; each cell compares "
                 "returned value (identity-tagged), closure invocation count and received argument with a table written from "
                 "the documentation. Cases k>=1 enumerate all token strings of length k-1 over {a,b,c,d,e,z} through a composed "
                 "grammar and compare result and closure-invocation trace with a direct reference. Distinct = distinct cell "
                 "names + distinct token strings of length >= 2; every cell is non-trivial (each is a different row of the "
                 "specification). Run in the chk (debug assertions) and rel builds, and the cell table also under Miri (quick "
-                "tier: the six shapes with drop glue, large moves or over-alignment; thorough tier: all).",
+                "tier: the seven shapes with drop glue, large moves or over-alignment; thorough tier: all).",
         "jobs": jobs,
         "primary_jobs": ["table-chk"],
         "eval_counters": ["cells", "grammar_strings"],
-        "floors": {"cells": 2 * (13 + 6 + 6) * 137 + 2 * 6 * 137, "shapes": 2 * 13 + 6, "cells_evaluated_while_unwinding": 3 * 6 * 137,
+        "floors": {"cells": 2 * (14 + 7 + 7) * 137 + 2 * 7 * 137, "shapes": 2 * 14 + 7, "cells_evaluated_while_unwinding": 3 * 7 * 137,
                    "table_repetitions_on_one_thread": 2 * 300,
-                   "distinct_nontrivial": 13 * 137},
+                   "distinct_nontrivial": 14 * 137},
         "assumptions": ["the specification table in harness/src/c15.rs is written from the rustdoc of flussab::Parsed/ResultExt"],
     }
 
@@ -395,6 +395,7 @@ def plan_C05(tier, seed):
     fl = dict(PARSER_FLOORS)
     fl.update({"parser:log": 100, "inputs": q(tier, 3_000_000, 100_000_000), "accepted": 500_000, "syntax_errors": 500_000,
                "giant_item_documents": 50, "giant_item_documents_accepted": 50,
+               "ring_circuits": 1000, "ring_circuits_answered_with_FoundCycle": 1000,
                "class:hostile": 100_000, "distinct_keys": 250, "distinct_nontrivial": q(tier, 1_000_000, 10_000_000)})
     return {
         "level": "exploration",
@@ -409,7 +410,9 @@ def plan_C05(tier, seed):
                 "peak live heap above 64*delivered + 2 MiB (counting allocator; any single request above 1 GiB is refused). "
                 "An input is non-trivial if it reaches at least the second token; distinct by hash of (input, parser config). "
                 "distinct_keys = number of distinct syntax-error message templates (numbers and quoted excerpts masked) "
-                "observed across all workers.",
+                "observed across all workers. One AIGER case in 500 also drives the circuit-level entry point of aig.rs "
+                "(Renumber::new / renumber_aig, all option combinations) with a ring of 1..=24 gates reachable from an output, "
+                "random polarities, side inputs and gate order: it has to answer FoundCycle within the same CPU and 2 MiB bounds.",
         "jobs": jobs, "primary_jobs": ["robust-chk"], "eval_counters": ["inputs"], "floors": fl,
         "assumptions": ["termination is decided up to the CPU budget of 20 s per input (inputs <= 1 MiB, normal cost is microseconds)"],
     }
@@ -634,8 +637,8 @@ def plan_C10(tier, seed):
         Job("log-rel", "rel", "c10", 48, {"mib": q(tier, 32, 256), "log": 1}, crash_is_violation=True, wall_limit=7200),
         Job("log-chk", "chk", "c10", 48, {"mib": q(tier, 8, 64), "log": 1}, crash_is_violation=True, wall_limit=7200),
         # record consumers on a bare DeferredReader, each using one family of look-ahead calls only
-        Job("raw-rel", "rel", "c10", 72, {"mib": q(tier, 32, 256), "raw": 1}, crash_is_violation=True, wall_limit=7200),
-        Job("raw-chk", "chk", "c10", 72, {"mib": q(tier, 8, 64), "raw": 1}, crash_is_violation=True, wall_limit=7200),
+        Job("raw-rel", "rel", "c10", 84, {"mib": q(tier, 32, 256), "raw": 1}, crash_is_violation=True, wall_limit=7200),
+        Job("raw-chk", "chk", "c10", 84, {"mib": q(tier, 8, 64), "raw": 1}, crash_is_violation=True, wall_limit=7200),
     ]
     if tier == "thorough":
         jobs.append(Job("stream-1g", "rel", "c10", 24, {"mib": 1024}, crash_is_violation=True, wall_limit=7200))
@@ -661,13 +664,13 @@ def plan_C10(tier, seed):
                 "bound). Solver logs are streamed the same way in a grid of their own (3 line mixes: comment lines in strict "
                 "mode / one run of lines to be ignored and blank lines / comments, ignored lines, blank lines and a value line "
                 "every 70000 lines - x 4 chunk sizes x 4 read sizes): the result, status plus at most 83 literals, is the "
-                "only item. Record consumers working directly on a DeferredReader have a third grid (6 styles, each using one "
+                "only item. Record consumers working directly on a DeferredReader have a third grid (7 styles, each using one "
                 "family of look-ahead calls only: request+advance / request_byte_at_offset+advance / request_more+"
                 "advance_with_buf / length-prefixed records via request_byte+request+advance / a steady look-ahead of three "
-                "chunks via request or via request_byte_at_offset, advancing one record at a time - x 4 chunk sizes x 3 read sizes: "
+                "chunks via request or via request_byte_at_offset, advancing one record at a time / request+advance with set_chunk_size called again before every record - x 4 chunk sizes x 3 read sizes: "
                 "1 byte, a full chunk, exactly one record per read)." % mib,
         "jobs": jobs, "primary_jobs": ["stream-rel"], "eval_counters": ["streams"],
-        "floors": dict({"streams": 2 * 192 + 2 * 48 + 2 * 72, "log_streams": 2 * 48, "raw_streams": 2 * 72, "streams_100x_bound": 150, "items": q(tier, 500_000_000, 4_000_000_000),
+        "floors": dict({"streams": 2 * 192 + 2 * 48 + 2 * 84, "log_streams": 2 * 48, "raw_streams": 2 * 84, "streams_100x_bound": 150, "items": q(tier, 500_000_000, 4_000_000_000),
                         "distinct_nontrivial": 150},
                        **{"btor_profile:%d" % k: 16 for k in range(3)},
                        **{"aiger_consumer:" + k: 60 for k in ["every_entry", "two_entries_per_section"]},
